@@ -283,6 +283,7 @@ CANARIES = {
         ("property-table-aliases-the-callers-dict", "stix2/custom.py", "text", ["def _get_properties_dict(properties):\n    try:", "def _get_properties_dict(properties):\n    if isinstance(properties, dict):\n        return properties\n    try:"], "C19.validation-before-write"),
     ],
     "C20": [
+        ('open-ended-top-bucket-of-a-bisect-table', 'stix2/confidence/scales.py', 'text', ['def none_low_med_high_to_value(', "import bisect\n\n_DNI_RANGE_STARTS = (0, 10, 20, 40, 60, 80, 90)\n_DNI_LABELS = (\n    'Almost No Chance / Remote',\n    'Very Unlikely / Highly Improbable',\n    'Unlikely / Improbable',\n    'Roughly Even Chance / Roughly Even Odds',\n    'Likely / Probable',\n    'Very Likely / Highly Probable',\n    'Almost Certain / Nearly Certain',\n)\n\n\ndef none_low_med_high_to_value(", '    if 9 >= confidence_value >= 0:\n        return \'Almost No Chance / Remote\'\n    elif 19 >= confidence_value >= 10:\n        return \'Very Unlikely / Highly Improbable\'\n    elif 39 >= confidence_value >= 20:\n        return \'Unlikely / Improbable\'\n    elif 59 >= confidence_value >= 40:\n        return \'Roughly Even Chance / Roughly Even Odds\'\n    elif 79 >= confidence_value >= 60:\n        return \'Likely / Probable\'\n    elif 89 >= confidence_value >= 80:\n        return \'Very Likely / Highly Probable\'\n    elif 100 >= confidence_value >= 90:\n        return \'Almost Certain / Nearly Certain\'\n    else:\n        raise ValueError("Range of values out of bounds: %s" % confidence_value)\n', '    index = bisect.bisect_right(_DNI_RANGE_STARTS, confidence_value) - 1\n    if index < 0 or index >= len(_DNI_LABELS):\n        raise ValueError("Range of values out of bounds: %s" % confidence_value)\n    return _DNI_LABELS[index]\n'], 'C20.refuse-outside'),
         ('error-built-but-not-raised', 'stix2/confidence/scales.py', 'text', ['def none_low_med_high_to_value(', 'def _out_of_bounds(v):\n    return ValueError(v)\n\n\ndef none_low_med_high_to_value(', '    elif 100 >= confidence_value >= 70:\n        return \'High\'\n    else:\n        raise ValueError("Range of values out of bounds: %s" % confidence_value)', "    elif confidence_value >= 70:\n        return 'High'\n    else:\n        _out_of_bounds(confidence_value)"], 'C20.refuse-outside'),
         ("boundary-overlap", "stix2/confidence/scales.py", "int+1", ["value_to_wep", "39 -> 40"], "C20.specification"),
         ("boundary-gap", "stix2/confidence/scales.py", "int-1", ["value_to_wep", "39 -> 38"], "C20.total"),
